@@ -2,10 +2,9 @@ import MoreExec.Props.C03
 import MoreExec.Props.C05
 #print axioms MoreExec.WakeProto.C03_sleep_invariant
 #print axioms MoreExec.WakeProto.C03_no_overshoot
-#print axioms MoreExec.Retry.C03_retry_no_lost_future_partial
 #print axioms MoreExec.Retry.C03_retry_no_lost_future
 #print axioms MoreExec.Retry.C03_retry_no_lost_future_quiescent
-#print axioms MoreExec.Retry.C03_retry_lost_without_contract
+#print axioms MoreExec.Retry.C03_mark_pays
 #print axioms MoreExec.MapFut.C03_cancelled_delegate_ends
 #print axioms MoreExec.Throttle.C07_no_idle_capacity
 #print axioms MoreExec.Poll.C08_prompt
